@@ -222,3 +222,13 @@ def glob_match(search_string: str, entry: str) -> bool:
     if len(ps) != len(es):
         return False
     return all(seg_glob(p, e) for p, e in zip(ps, es))
+
+
+def glob_match_fnmatch(search_string: str, entry: str) -> bool:
+    """Alternative semantics (fnmatch-style '[seq]' / '[!seq]' character classes and '?'), used only to
+    recognise the known finding 'bracket characters are not literal'."""
+    import fnmatch
+    ps, es = search_string.split("/"), entry.split("/")
+    if len(ps) != len(es):
+        return False
+    return all(fnmatch.fnmatchcase(e, p) for p, e in zip(ps, es))
